@@ -8,6 +8,7 @@ arithmetic is exact:
   * a / b                      -> DIV_(a, b)              (int/int gives a Fraction, not a float)
   * a ** b, pow(a,b), math.pow -> POW_(a, b)              (integral b exact, else stub rpow)
   * float(x)                   -> TOFRAC_(x)              (identity on rationals, parses strings)
+  * float (as a type)          -> (float, Fraction)       (isinstance checks accept rationals)
   * math.<f>, from math import -> rational stub functions (same stubs as Lean's Symbols at Q)
 
 The stubs are numerically meaningless; two programs that apply the same field operations to the
@@ -156,11 +157,15 @@ class _Rewriter(ast.NodeTransformer):
         return node
 
     def visit_Call(self, node):
-        self.generic_visit(node)
         if isinstance(node.func, ast.Name) and node.func.id == 'float' and len(node.args) == 1:
-            return ast.copy_location(
-                ast.Call(func=ast.Name(id='TOFRAC_', ctx=ast.Load()),
-                         args=node.args, keywords=[]), node)
+            node.func = ast.Name(id='TOFRAC_', ctx=ast.Load())
+        self.generic_visit(node)
+        return node
+
+    def visit_Name(self, node):
+        # `isinstance(x, (int, float))` must accept exact rationals too
+        if node.id == 'float' and isinstance(node.ctx, ast.Load):
+            return ast.copy_location(ast.Name(id='FLOATT_', ctx=ast.Load()), node)
         return node
 
     def visit_Attribute(self, node):
@@ -230,6 +235,7 @@ class _Finder(importlib.abc.MetaPathFinder, importlib.abc.Loader):
         g['DIV_'] = DIV_
         g['TOFRAC_'] = TOFRAC_
         g['MATH_'] = StubMath
+        g['FLOATT_'] = (float, Fraction)
         exec(code, g)
 
 
